@@ -54,6 +54,23 @@ inline size_t storage_len(const StackDesc &d, const std::vector<size_t> &ext)
 }
 
 // ---------------------------------------------------------------- curves (published definitions)
+// Element count of the array layer. The storage may legitimately be larger than the
+// storage order needs (a field built from the full parameter pack, strided_cfg + array_cfg):
+// the model keeps the count in the array layer's configuration.
+inline size_t array_count(const StackDesc &d, const ModelField &m)
+{
+    size_t need = storage_len(d, m.ext);
+    int al = d.depth - 1;
+    if (al >= 0 && (d.layers[al].kind == LK_ARRAY || d.layers[al].kind == LK_CUDA) && al < (int)m.cfg.size() && m.cfg[al].size() == 8) {
+        uint64_t n = 0;
+        for (int i = 0; i < 8; ++i)
+            n |= (uint64_t)m.cfg[al][i] << (8 * i);
+        if (n > need && n <= need + 65536)
+            return (size_t)n;
+    }
+    return need;
+}
+
 inline uint64_t pos_rowmajor(const std::vector<size_t> &ext, const size_t *c)
 {
     uint64_t p = 0;
@@ -255,14 +272,17 @@ inline void format_write(const StackDesc &d, const ModelField &m, Bytes &out, By
         mark(8, 1);
         if (l.kind == LK_ARRAY || l.kind == LK_CUDA) {
             uint32_t w = (uint32_t)scal_size(d.storage);
-            size_t len = storage_len(d, m.ext);
+            size_t len = array_count(d, m);
+            size_t used = storage_len(d, m.ext);
             fm_put32(out, w);
             fm_put64(out, len);
             mark(12, 1);
             size_t base = out.size();
             out.insert(out.end(), len * d.M * w, 0);
-            if (care)
-                care->insert(care->end(), len * d.M * w, 0);
+            if (care) {
+                care->insert(care->end(), used * d.M * w, 0);
+                care->insert(care->end(), (len - used) * d.M * w, 1); // spare elements are value-initialised and never written
+            }
             for_lattice(m.ext, [&](size_t lin, const size_t *cc) {
                 uint64_t p = storage_pos(d, m.ext, cc);
                 for (int j = 0; j < d.M; ++j) {
@@ -587,7 +607,7 @@ inline void put_bits(Bytes &b, Scal s, uint64_t bits)
 // computable domain (boxes inside the inner domain, transforms that are
 // permutation x power-of-two scale + dyadic shift). nice = false: arbitrary
 // values (the configuration is only stored, copied and serialised).
-inline void gen_cfgs(const StackDesc &d, const std::vector<size_t> &ext, Rng &r, bool nice, ValMode vm, ModelField &m)
+inline void gen_cfgs(const StackDesc &d, const std::vector<size_t> &ext, Rng &r, bool nice, ValMode vm, ModelField &m, size_t slack = 0)
 {
     m.stack = d.index;
     m.ext = ext;
@@ -625,7 +645,7 @@ inline void gen_cfgs(const StackDesc &d, const std::vector<size_t> &ext, Rng &r,
         switch (l.kind) {
         case LK_ARRAY:
         case LK_CUDA:
-            put_scal(b, SC_U64, (double)storage_len(d, ext));
+            put_scal(b, SC_U64, (double)(storage_len(d, ext) + (d.shape == SHAPE_LAYOUT ? slack : 0)));
             break;
         case LK_STRIDED:
         case LK_MORTON:
